@@ -1,0 +1,56 @@
+// MIT License
+//
+// Copyright (c) 2022-2026 GoAkt Team
+//
+// Permission is hereby granted, free of charge, to any person obtaining a copy
+// of this software and associated documentation files (the "Software"), to deal
+// in the Software without restriction, including without limitation the rights
+// to use, copy, modify, merge, publish, distribute, sublicense, and/or sell
+// copies of the Software, and to permit persons to whom the Software is
+// furnished to do so, subject to the following conditions:
+//
+// The above copyright notice and this permission notice shall be included in all
+// copies or substantial portions of the Software.
+//
+// THE SOFTWARE IS PROVIDED "AS IS", WITHOUT WARRANTY OF ANY KIND, EXPRESS OR
+// IMPLIED, INCLUDING BUT NOT LIMITED TO THE WARRANTIES OF MERCHANTABILITY,
+// FITNESS FOR A PARTICULAR PURPOSE AND NONINFRINGEMENT. IN NO EVENT SHALL THE
+// AUTHORS OR COPYRIGHT HOLDERS BE LIABLE FOR ANY CLAIM, DAMAGES OR OTHER
+// LIABILITY, WHETHER IN AN ACTION OF CONTRACT, TORT OR OTHERWISE, ARISING FROM,
+// OUT OF OR IN CONNECTION WITH THE SOFTWARE OR THE USE OR OTHER DEALINGS IN THE
+// SOFTWARE.
+
+//go:build verif
+
+package actor
+
+// VerifFaultCounter projects the consecutive fault counter and the time of the
+// last recorded fault (unix nanoseconds, 0 = never) of a local PID.
+func VerifFaultCounter(pid *PID) (faults int64, lastFaultAtNano int64) {
+	return pid.consecutiveFaults.Load(), pid.lastFaultAtNano.Load()
+}
+
+// VerifInTree reports whether pid currently has a node in the actors tree and
+// the name of the parent recorded there ("" when absent).
+func VerifInTree(pid *PID) (bool, string) {
+	sys := pid.ActorSystem()
+	if sys == nil {
+		return false, ""
+	}
+	t := sys.tree()
+	if _, ok := t.node(pid.ID()); !ok {
+		return false, ""
+	}
+	if parent, ok := t.parent(pid); ok && parent != nil {
+		return true, parent.Name()
+	}
+	return true, ""
+}
+
+// VerifDeathWatch returns the PID of the system's death watch actor.
+func VerifDeathWatch(sys ActorSystem) *PID { return sys.getDeathWatch() }
+
+// VerifLifecycleFlags projects the running / suspended / stopping flags.
+func VerifLifecycleFlags(pid *PID) (running, suspended, stopping bool) {
+	return pid.isStateSet(runningState), pid.isStateSet(suspendedState), pid.isStateSet(stoppingState)
+}
